@@ -1,5 +1,6 @@
 ------------------------------ MODULE Gen_C01 ------------------------------
 EXTENDS EnvGen
 C01Cfgs == { [nsrv |-> 1, tries |-> 2, timeout |-> 1000, seed |-> 1],
+             [nsrv |-> 1, tries |-> 1, timeout |-> 1000, seed |-> 3, edns |-> 1],
              [nsrv |-> 2, tries |-> 1, timeout |-> 1000, seed |-> 2, domains |-> <<"d1.test">>, ndots |-> 3] }
 =============================================================================
